@@ -32,15 +32,17 @@ func (e *Env) MatrixText(name string) ([]byte, error)  { return e.MarshalText(na
 func (e *Env) MatrixFrom(name string, dec *jsontext.Decoder) (string, error) {
 	b := e.beh(e.nameID(name))
 	e.log(name, e.nameID(name), KindNames[b.Kind])
-	if e.InUse == nil {
-		e.InUse = map[any]int{}
+	if !e.Quiet {
+		if e.InUse == nil {
+			e.InUse = map[any]int{}
+		}
+		e.InUse[dec]++
+		defer func() { e.InUse[dec]-- }()
 	}
-	e.InUse[dec]++
-	defer func() { e.InUse[dec]-- }()
 	e.yield("peer/" + name)
 	if e.CheckOpts != nil {
 		if msg := e.CheckOpts(dec.Options()); msg != "" {
-			e.Findings = append(e.Findings, name+": "+msg)
+			e.finding(name+": "+msg)
 		}
 	}
 	switch b.Kind {
@@ -64,7 +66,7 @@ func (e *Env) MatrixFrom(name string, dec *jsontext.Decoder) (string, error) {
 		func() {
 			defer func() {
 				if r := recover(); r == nil {
-					e.Findings = append(e.Findings, name+": Decoder.Reset inside an unmarshal call did not panic")
+					e.finding(name+": Decoder.Reset inside an unmarshal call did not panic")
 				}
 			}()
 			dec.Reset(io.LimitReader(nil, 0))
